@@ -227,6 +227,14 @@ def _parse_iso8601_interval(text: str) -> _Interval:
         start = parse_iso8601(first)
         end = parse_iso8601(last)
 
+    if duration is not None:
+        # A duration is applied to a point in time
+        if not isinstance(end if start is None else start, datetime):
+            raise ParserError("Invalid interval")
+    elif not (isinstance(start, date) and isinstance(end, date)):
+        # Times of day and durations cannot delimit an interval
+        raise ParserError("Invalid interval")
+
     return _Interval(
         cast(datetime, start), cast(datetime, end), cast(Duration, duration)
     )
